@@ -154,11 +154,50 @@ def write_worker(analysis: Analysis, qual: str) -> dict:
     cls = qual.rsplit(".", 1)[0]
     tr = Sym(("root", "TT"), ("cls", cls))
     rows = []
-    for out in analysis.run_root(it, qual, [Sym(("root", "data"), "bytes")], tr, st):
+    args = [Sym(("root", "data"), "bytes")] if qual.endswith(".write") else []
+    for out in analysis.run_root(it, qual, args, tr, st):
         kind, s, v = out
         if kind == "raise":
             rows.append({"exc": v.cls.__name__, "os": issubclass(v.cls, OSError), "what": v.what, "witness": describe_path(out, 12)})
     return {"qual": qual, "rows": rows}
+
+
+def iter_worker(analysis: Analysis, spec) -> dict:
+    """State-rooted containers that Gateway.logic (the pump thread) iterates, per abstract path."""
+    from ..effects import render
+    from .c01 import MODULAR
+
+    ctx = analysis.context(*spec)
+    it = analysis.new_interp(ctx)
+    it.trace_iters = True
+    it.inline_skip = set(MODULAR)
+    st, gw = analysis.gateway_state(it)
+    seen = {}
+    for out in analysis.run_root(it, "__init__:Gateway.logic", [Sym(("root", "line"), "str")], gw, st):
+        kind, s, v = out
+        for e in s.events:
+            if e.kind == "iter":
+                base = e.recv.args[0] if hasattr(e.recv, "args") and getattr(e.recv, "cls", "").startswith("dict_") and e.recv.args else e.recv
+                seen.setdefault(render(base.key()), (f"{e.func}:{e.line}", describe_path(out, 14)))
+    return {"ctx": ctx.name, "iters": seen}
+
+
+def controller_written(analysis: Analysis) -> set:
+    """Containers the controller's thread can grow: what set_child_value stores into on its paths."""
+    from ..effects import render
+    from .c01 import MODULAR
+
+    ctx = analysis.context(analysis.versions[-1], "serial", "sync")
+    it = analysis.new_interp(ctx)
+    it.inline_skip = set(MODULAR)
+    st, gw = analysis.gateway_state(it)
+    args = [Sym(("root", "a_node"), "int"), Sym(("root", "a_child"), "int"), Sym(("root", "a_vtype"), None), Sym(("root", "a_value"), None)]
+    written = set()
+    for kind, s, v in analysis.run_root(it, "__init__:Gateway.set_child_value", args, gw, st):
+        for e in s.events:
+            if e.kind in ("setitem", "update", "setdefault") and isinstance(e.recv, V) and e.recv.key()[0] != "dictv":
+                written.add(render(e.recv.key()))
+    return written
 
 
 def send_discipline(analysis: Analysis, res: RuleResult):
@@ -195,6 +234,9 @@ def send_discipline(analysis: Analysis, res: RuleResult):
                 if r["caught"]:
                     saw_handler = True
                     ok_h = len(r["closes"]) == 1 and len(r["reconnects"]) == 1 and len(r["writes"]) == 1 and r["closes"][0] > r["caught"][0] and r["reconnects"][0] > r["caught"][0]
+                    if ok_h:
+                        ok_o = r["closes"][0] < r["reconnects"][0]
+                        res.add("C16-R3", f"{q} / the broken connection is closed before the reconnect is started", ok_o, "mysensors/transport.py", "transport.close() precedes conn_lost_callback()" if ok_o else "the reconnect is started before the old connection is closed: the old reader thread's connection_lost then clears the transport of the NEW connection, later writes are dropped and stop() never closes the link", r["witness"] if not ok_o else None, context=summ["flavour"])
                     res.add("C16-R3", f"{q} / a failed write closes and reconnects exactly once, without retry", ok_h, "mysensors/transport.py", f"closes {len(r['closes'])}, reconnects {len(r['reconnects'])}, writes {len(r['writes'])}", r["witness"] if not ok_h else None, context=summ["flavour"])
                 else:
                     ok_n = not r["reconnects"]
@@ -209,9 +251,24 @@ def send_discipline(analysis: Analysis, res: RuleResult):
             res.add("C16-R3", f"{q} / a failing write is handled", saw_handler, "mysensors/transport.py", "OSError handler present", context=summ["flavour"])
     # transports implemented in the repo: their write() may only fail with OSError, the one class send() handles
     writes = sorted(q for q, f in analysis.p.funcs.items() if q.endswith(".write") and f.cls is not None and any("ReaderThread" in b or "Transport" in b for b in analysis.p.mro(f.cls.qual)))
+    # ... and their close() must not raise at all: send's error handler calls it outside any try (A-CLOSE is an
+    # assumption about pyserial / asyncio transports, not about code in this repository)
+    closes_ = sorted(q for q, f in analysis.p.funcs.items() if q.endswith(".close") and f.cls is not None and any("ReaderThread" in b or "Transport" in b for b in analysis.p.mro(f.cls.qual)))
+    for summ in common.pmap(analysis, write_worker, closes_) if closes_ else []:
+        bad = summ["rows"]
+        res.add("C16-R3", f"{summ['qual']} / does not raise (it is called from send's OSError handler)", not bad, "mysensors/gateway_tcp.py", "no escaping path" if not bad else f"{bad[0]['exc']} can be raised ({bad[0]['what']}): closing an already closed connection raises inside send's error handler and ends the pump", bad[0]["witness"] if bad else None)
     for summ in common.pmap(analysis, write_worker, writes) if writes else []:
         bad = [r for r in summ["rows"] if not r["os"]]
         res.add("C16-R3", f"{summ['qual']} / fails only with OSError (the class Transport.send handles)", not bad, "mysensors/gateway_tcp.py", "nothing but OSError can be raised" if not bad else f"{bad[0]['exc']} can be raised ({bad[0]['what']}): it is not an OSError, escapes Transport.send and ends the pump", bad[0]["witness"] if bad else None)
+    # the pump thread must not iterate a dict the controller's thread can add keys to (set_child_value runs on
+    # the caller's thread): "dictionary changed size during iteration" would end the pump
+    written = controller_written(analysis)
+    wrote_new_state = sorted(w for w in written if "?" not in w)
+    if not wrote_new_state:
+        raise AnalysisError("C16-R5: set_child_value stores into no long-lived container on any path")
+    for summ in common.pmap(analysis, iter_worker, [(analysis.versions[-1], "serial", "sync"), (analysis.versions[2] if len(analysis.versions) > 2 else analysis.versions[-1], "serial", "sync")]):
+        clash = sorted(set(summ["iters"]) & set(wrote_new_state))
+        res.add("C16-R5", "the pump iterates no container that the controller's thread grows", not clash, "mysensors/handler.py", f"iterated: {sorted(summ['iters'])[:4]}; grown by set_child_value: {wrote_new_state}" if not clash else f"{summ['iters'][clash[0]][0]} iterates {clash[0]}, which set_child_value (on the caller's thread) adds keys to: RuntimeError 'dictionary changed size during iteration' ends the pump", summ["iters"][clash[0]][1] if clash else None, context=summ["ctx"])
     # re-entrancy: SyncTransport.send calls the reconnect callback while it holds the (non-reentrant) send lock,
     # so whatever the transport registers as that callback must not take the same lock
     for cq, cls in sorted(analysis.p.classes.items()):
@@ -252,6 +309,9 @@ def run(analysis: Analysis, tier: str) -> RuleResult:
     ]
     ws = send_discipline(analysis, res)
     queue_discipline(analysis, res)
+    from .c08 import queue_access
+
+    queue_access(analysis, res, "C16-R4")
     res.units = {"functions": ["transport:Transport.send", "transport:Transport.disconnect", "transport:SyncTransport.send", "task:Tasks.run_job"], "writers_of_shared_fields": len(ws), "source_digest": analysis.p.digest()}
     res.not_decided = ["actual interleavings", "completeness of a write on a non-blocking socket", "fairness"]
     res.assumptions = ["A-CLOSE: close() of a transport object does not raise", "write() of a closed transport raises OSError (pyserial PortNotOpenError / socket error), which send handles"]
